@@ -102,6 +102,11 @@ CHECKS = {
             "TX FakeBLE (or the reference encoder through an injector chip) -> simulated air with bit-flip fault rules -> RX FakeBLE; for each base packet all 256 single-bit corruptions are enumerated; the reference codec decides for the 32 bytes actually received whether an element must/may be queued and what it must contain.",
             "Trusts the reference codec; temperature tolerance of one 0.01 unit; length byte < 6 or RFU bits: either outcome accepted.",
             "5 C19"),
+    "C20": ("exploration",
+            "deterministic simulation: the C01/C02/C08/C10 scenario generators, fault enumerations and oracles re-run with the rf24_lite driver (through the real adafruit SPIDevice on a busio-style fake bus) as transmitter, receiver or both, plus a configuration reference encoder and the complete load_ack argument grid",
+            "The lite driver is exercised by the same simulated links, per-attempt fault vectors, pipe/role sweeps and accessor histories as the full driver (within its documented reductions), interoperating with RF24 in both directions; a small inline reference encoder checks its configuration attributes; load_ack is evaluated for every length 0..34 x pipe -1..6 x TX FIFO fill 0..3.",
+            "As C01, C02, C08, C10; the lite driver is only placed on nRF24L01+ chips (documented incompatibility with non-plus).",
+            "5 C20"),
 }
 
 REASON_PENDING = "check not built yet in this commit (planned, see DESIGN.md section 5)"
